@@ -71,6 +71,7 @@ TRIAGE = [
     # class rule (any function): taking a std lock and unwrapping the LockResult fails only on a poisoned lock; poisoning needs a panic
     # while the lock is held, which R10.2 excludes for the log-path locks
     (r'.', 'unwrap', r'^Result::(unwrap|expect)<std::sync::(MutexGuard|RwLockReadGuard|RwLockWriteGuard)<', 99, 'POI', 'lock result: poison only'),
+    (r'.', 'unwrap', r'^Result::(unwrap|expect)<.*;E=std::sync::PoisonError<', 99, 'POI', 'a Result whose error type is PoisonError (a lock result passed through a private accessor): poison only'),
 ]
 
 def norm_what(w):
